@@ -1,4 +1,5 @@
 import WowVerif.Model.C16Blp
+import WowVerif.Lemmas.C16Header
 /-!
 C16 — BLP encode→parse is exact; lossless encodings preserve pixels.
 
@@ -333,11 +334,27 @@ theorem pack4_length (as : List UInt8) : (pack4 as).length = (as.length + 1) / 2
   rw [List.length_map, chunksOf_length 2 _ _ (by decide) (by simp)]
   simp
 
+/-! ## the header (Model.C16Header = parser/header.rs:parse_header + encode/mod.rs:encode_header) -/
+
+/-- HEADER ENCODE → PARSE IS EXACT for BLP0, BLP1 and BLP2: every normal header (known content tag, standard alpha depth,
+    known compression / alpha type, dimensions within the format's limit, a 16+16 locator exactly when the version has one)
+    is written, and the parser reads back exactly that header from the written bytes, whatever follows them -/
+theorem header_roundtrip (h : BlpH.Hdr) (hn : BlpH.Normal h) (rest : Bytes) :
+    ∃ bs, BlpH.write h = .ok bs ∧ BlpH.parse (bs ++ rest) = .ok h := BlpH.parse_write h hn rest
+
+/-- the written header is as long as the reader assumes when it looks for the content behind it (BlpHeader::size):
+    28 / 156 / 148 bytes -/
+theorem header_size (h : BlpH.Hdr) (hn : BlpH.Normal h) (bs : Bytes) (hw : BlpH.write h = .ok bs) :
+    bs.length = BlpH.size h.version := BlpH.write_size h hn bs hw
+
 /-! ## non-vacuity -/
 example : chain 8 2 true = [(8, 2), (4, 1), (2, 1), (1, 1)] := by decide
 example : chain 5 3 true = [(5, 3), (2, 1), (1, 1)] ∧ mipCount 5 3 true = 2 := by decide
 example : layout 148 [16, 8, 4] = [(148, 16), (164, 8), (172, 4)] := by decide
 example : pack1 [0, 1, 0, 255, 0, 0, 0, 0, 9] = [10, 1] := by decide
 example : pack4 [0, 255, 128] = [240, 8] := by decide
+example : BlpH.Normal ⟨2, 1, .blp2 2 8 7 1, 256, 64, List.replicate 32 7⟩ :=
+  ⟨by decide, by decide, by decide, Or.inr ⟨by decide, by decide, by decide⟩, by decide⟩
+example : BlpH.Normal ⟨0, 0, .old 8 5 1, 300, 1, []⟩ := ⟨by decide, by decide, by decide, Or.inl ⟨rfl, rfl⟩, by decide⟩
 
 end Wv.Blp
